@@ -865,6 +865,11 @@ func (ce *CEnv) call(e *ECall) CVal {
 			efail("typeIs: second argument must be a type")
 		}
 		return CVal{T: mkEq(mk(SInt, "if-tag", x.T), ce.u.typeTag(ty)), Ty: types.Typ[types.Bool]}
+	case "strcat":
+		// strcat(a, b): string concatenation (the same uninterpreted function the code's a + b uses)
+		a, b := ce.eval(e.Args[0]), ce.eval(e.Args[1])
+		ce.u.sc.declareFun("strcat", []string{SStr, SStr}, SStr)
+		return CVal{T: mk(SStr, "strcat", a.T, b.T), Ty: types.Typ[types.String]}
 	case "unwrappable":
 		// unwrappable(x): the dynamic type of interface x has an Unwrap, Is or As method
 		x := ce.eval(e.Args[0])
